@@ -223,7 +223,7 @@ pub fn gen(rng: &mut Rng, thorough: bool, sink: &mut Sink) {
     (3, vec![b"#frag".to_vec(), b"/path".to_vec(), b"?a=b&c=d".to_vec(), b"?index=%41".to_vec()]),
     (4, vec![b"did:iota:0x1111111111111111111111111111111111111111111111111111111111111111".to_vec(), b"did:iota:smr:0x1111111111111111111111111111111111111111111111111111111111111111".to_vec()]),
     (5, vec![format!("did:jwk:{}", identity_jose::jwu::encode_b64(serde_json::to_vec(&jwk_ec).unwrap())).into_bytes(), b"did:jwk:e30".to_vec(), b"did:jwk:W10".to_vec()]),
-    (6, vec![b"2023-06-01T12:30:45Z".to_vec(), b"9999-12-31T23:59:59-01:00".to_vec(), b"0000-01-01T00:00:00+01:00".to_vec(), b"2023-06-01T12:30:45.123+23:59".to_vec(), b"2016-12-31T23:59:60Z".to_vec()]),
+    (6, vec![b"2023-06-01T12:30:45Z".to_vec(), b"9999-12-31T23:59:59-01:00".to_vec(), b"0000-01-01T00:00:00+01:00".to_vec(), b"0000-01-01T00:00:00+00:30".to_vec(), b"0000-01-01T00:00:00+00:01".to_vec(), b"0000-01-01T00:29:59+00:59".to_vec(), b"9999-12-31T23:59:59-00:01".to_vec(), b"2023-06-01T12:30:45.123+23:59".to_vec(), b"2016-12-31T23:59:60Z".to_vec()]),
     (7, vec![b"\"2023-06-01T12:30:45Z\"".to_vec(), b"\"9999-12-31T23:59:59-00:01\"".to_vec()]),
     (10, vec![jws_ed.clone().into_bytes(), jws_ec.clone().into_bytes(), hdr(json!({"alg": "EdDSA", "b64": false, "crit": ["b64"]}), b"{}", &[1]).into_bytes(), b"e30..".to_vec(), b"..".to_vec()]),
     (19, vec![b"H4sIAAAAAAAAA-3BMQEAAADCoPVPbQwfoAAAAAAAAAAAAAAAAAAAAIC3AYbSVKsAQAAA".to_vec(), b"H4sIAAAAAAAAAwMAAAAAAAAAAAA".to_vec(), b"eJyzMmAAAwADKABr".to_vec()]),
